@@ -13,6 +13,26 @@ REALS_AXIOMS = ["ClassicalDedekindReals.sig_forall_dec", "ClassicalDedekindReals
                 "FunctionalExtensionality.functional_extensionality_dep"]
 
 PROPS = {
+    "C14": {
+        "drivers": [{"src": "drv_C14.C", "repo_sources": []}],
+        "coq": ["Tie_C14.v", "Properties_C14.v"],
+        "thm_files": [],
+        "assumptions": ["unit axis: v0^2+v1^2+v2^2 = 1 (orthogonality, determinant, fixed axis, additivity); Rodrigues' formula holds for every axis",
+                        "sin/cos abstracted to (s,c) with s*s = 1 - c*c; sin_plus/cos_plus for the angle sum; the literal 0.25*M_PI is read as PI/4",
+                        "basis histories enumerated exhaustively to length 3 with symbolic angles"],
+        "trusted_base": ["the C constant M_PI (and 2*M_PI, M_PI/2, M_PI/4) is interpreted as the real number PI (resp. 2PI, PI/2, PI/4)"],
+    },
+    "C02": {
+        "drivers": [{"src": "drv_C02.C", "repo_sources": ["util/Pauli.C"]}],
+        "coq": ["Tie_C02_basic.v", "Tie_C02_xform.v", "Tie_C02_cplx.v", "Tie_C02_basis.v", "Tie_C02_mueller_spec.v"]
+               + ["Tie_C02_mu_%s%d.v" % (b, r) for b in ("lin", "circ") for r in range(4)] + ["Properties_C02.v"],
+        "thm_files": ["SpecJones.v"],
+        "assumptions": ["elliptical bases: cos/sin of the symbolic angles abstracted to (c,s) with s*s = 1 - c*c (sin2_cos2)",
+                        "Mueller composition/derivative and transform=Mueller.S proved for the linear and circular bases (as the property states); elliptical bases: round trips, trace/det, orthonormality and histories",
+                        "basis histories enumerated exhaustively to length 3 over {Linear, Circular, Elliptical(o,e)} with symbolic angles; each call overwrites the whole state"],
+        "trusted_base": [],
+        "coq_timeout": {"quick": 1500, "thorough": 3000},
+    },
     "C03": {
         "drivers": [{"src": "drv_C03.C", "repo_sources": ["util/Pauli.C"]}],
         "coq": ["Tie_C03.v", "Properties_C03.v"],
